@@ -49,6 +49,7 @@ static uint8_t APPDATA[2][70000];
 static void app_fill(void) { for (size_t i = 0; i < sizeof APPDATA[0]; i++) { APPDATA[0][i] = (uint8_t)(i * 7 + 1 + (i >> 8)); APPDATA[1][i] = (uint8_t)(i * 13 + 5 + (i >> 7)); } }
 static int ep_send(ep_t *e, TLS_CONNECT *c, const uint8_t *p, size_t n) { size_t off = 0; int guard = 0; while (off < n) { size_t s = 0; int r = e->proto == P_TLS13 ? tls13_send(c, p + off, n - off, &s) : tls_send(c, p + off, n - off, &s); if (r != 1 || s == 0 || s > n - off) return -1; off += s; if (++guard > 100000) return -1; } return 1; }
 static int ep_recv(ep_t *e, TLS_CONNECT *c, uint8_t *buf, size_t cap, size_t *got) { return e->proto == P_TLS13 ? tls13_recv(c, buf, cap, got) : tls_recv(c, buf, cap, got); }
+static void (*ep_hook)(void *e, TLS_CONNECT *conn, int phase);   /* phase 0: configured, before the handshake; 1: handshake returned */
 static int ep_task(void *arg) {
 	ep_t *e = (ep_t *)arg; static __thread TLS_CONNECT *conn; TLS_CTX ctx; conn = (TLS_CONNECT *)calloc(1, sizeof *conn); e->conn_out = conn;
 	venv_reset(e->entropy_key); if (e->entropy_fail_at >= 0) venv_fail_at(e->entropy_fail_at);
@@ -57,7 +58,9 @@ static int ep_task(void *arg) {
 	if (e->trust) { ctx.cacerts = (uint8_t *)e->trust->cacerts; ctx.cacertslen = e->trust->cacertslen; }
 	if (tls_init(conn, &ctx) != 1) { e->hs_ret = -77; return -77; }
 	conn->sock = e->is_client ? VN_CLIENT_FD : VN_SERVER_FD;
+	if (ep_hook) ep_hook(e, conn, 0);
 	e->hs_ret = tls_do_handshake(conn); e->draws = venv_cur()->draws;
+	if (ep_hook) ep_hook(e, conn, 1);
 	e->cipher_suite = conn->cipher_suite; e->protocol = conn->protocol;
 	/* secrets snapshot: master_secret+key_block (TLCP/1.2) or the four traffic keys/ivs (1.3) */
 	size_t sl = 0; if (e->proto != P_TLS13) { memcpy(e->secrets, conn->master_secret, 48); memcpy(e->secrets + 48, conn->key_block, 96); sl = 144; } else { memcpy(e->secrets, conn->client_write_iv, 12); memcpy(e->secrets + 12, conn->server_write_iv, 12); memcpy(e->secrets + 24, &conn->client_write_key, sizeof(BLOCK_CIPHER_KEY) < 160 ? sizeof(BLOCK_CIPHER_KEY) : 160); sl = 24 + (sizeof(BLOCK_CIPHER_KEY) < 160 ? sizeof(BLOCK_CIPHER_KEY) : 160); memcpy(e->secrets + sl, &conn->server_write_key, sizeof(BLOCK_CIPHER_KEY) < 160 ? sizeof(BLOCK_CIPHER_KEY) : 160); sl += sizeof(BLOCK_CIPHER_KEY) < 160 ? sizeof(BLOCK_CIPHER_KEY) : 160; } e->secrets_len = sl;
